@@ -471,6 +471,37 @@ Proof.
     destruct (IH p Hp) as [IHk IHv]. apply in_app_or in Hb. destruct Hb; eauto.
 Qed.
 
+(* ---------------------------------------------------------------- the loader's comment filter *)
+Theorem strip_clean : forall v, clean (strip v) = true.
+Proof.
+  induction v as [z|z|z|z|l IH|l IH|tn kv IH] using value_ind'; try reflexivity.
+  - cbn [strip clean]. induction IH as [|x r Hx Hr IHr]; [reflexivity|].
+    cbn [flat_map]. destruct (is_comment x) eqn:E; [exact IHr|].
+    cbn [app forallb]. rewrite Hx, IHr.
+    destruct x; try reflexivity. simpl in E. simpl. rewrite E. reflexivity.
+  - cbn [strip clean]. induction IH as [|x r Hx Hr IHr]; [reflexivity|].
+    cbn [flat_map]. destruct (is_comment x) eqn:E; [exact IHr|].
+    cbn [app forallb]. rewrite Hx, IHr.
+    destruct x; try reflexivity. simpl in E. simpl. rewrite E. reflexivity.
+Qed.
+
+Theorem strip_id : forall v, clean v = true -> strip v = v.
+Proof.
+  induction v as [z|z|z|z|l IH|l IH|tn kv IH] using value_ind'; intros H; try reflexivity.
+  - cbn [strip]. f_equal. cbn [clean] in H.
+    induction IH as [|x r Hx Hr IHr]; [reflexivity|].
+    cbn [forallb] in H. apply andb_prop in H. destruct H as [H1 H2].
+    apply andb_prop in H1. destruct H1 as [Hc Hcl].
+    cbn [flat_map]. destruct (is_comment x); [discriminate|].
+    cbn [app]. rewrite Hx by assumption. rewrite IHr by assumption. reflexivity.
+  - cbn [strip]. f_equal. cbn [clean] in H.
+    induction IH as [|x r Hx Hr IHr]; [reflexivity|].
+    cbn [forallb] in H. apply andb_prop in H. destruct H as [H1 H2].
+    apply andb_prop in H1. destruct H1 as [Hc Hcl].
+    cbn [flat_map]. destruct (is_comment x); [discriminate|].
+    cbn [app]. rewrite Hx by assumption. rewrite IHr by assumption. reflexivity.
+Qed.
+
 (* ---------------------------------------------------------------- the hash order defect *)
 Definition refute_rho : value -> option value := fun _ => Some (VList [VInt 1; VInt 2; VInt 3]).
 Definition refute_t : tmpl := THash 9 [(TLit (VSym 5), TSpl (VSym 6))].
@@ -484,8 +515,9 @@ Proof. repeat split. Qed.
 (* ---------------------------------------------------------------- macros *)
 Section MacroProofs.
   Variable eval_in : scope -> value -> option value.
-  Variable generate : value -> option (list Z).
-  Variable other_call : Z -> list value -> option (list Z).
+  Variable gctx : Type.
+  Variable generate : gctx -> value -> option (list Z).
+  Variable other_call : gctx -> Z -> list value -> option (list Z).
   (* gen.Generate of a symbol is EnvToStackInstr: the lexical lookup *)
   Hypothesis eval_sym : forall sc s, eval_in sc (VSym s) = lookup s sc.
 
@@ -510,23 +542,41 @@ Section MacroProofs.
       elems (macro_rho dup m args) (TUnq (VSym p)) = Ok [a].
   Proof. intros. unfold macro_rho. simpl. rewrite eval_sym, H. reflexivity. Qed.
 
-  Theorem macro_call_is_expansion : forall macros st s args m e,
+  Theorem macro_call_is_expansion : forall macros ctx st s args m e,
       macros s = Some m ->
       expand_in eval_in (duplicate st) m args = Some e ->
-      gen_call eval_in generate other_call macros st s args = (st, generate e).
+      gen_call eval_in gctx generate other_call macros ctx st s args = (st, generate ctx e).
   Proof. intros. unfold gen_call. rewrite H, H0. reflexivity. Qed.
 
-  Theorem expansion_isolated : forall macros st s args,
-      fst (gen_call eval_in generate other_call macros st s args) = st.
+  (* the code of a macro call = the code, in the SAME generator context, of the body's template
+     substituted with the argument forms and the caller's CURRENT global scope *)
+  Theorem macro_call_is_substitution : forall macros ctx st s args m,
+      macros s = Some m ->
+      length args = length (m_params m) ->
+      wf (m_body m) = true -> is_splice (m_body m) = false ->
+      hshort (macro_rho (duplicate st) m args) (m_body m) = true ->
+      gen_call eval_in gctx generate other_call macros ctx st s args =
+      (st, match subst (macro_rho (duplicate st) m args) (m_body m) with
+           | Ok e => generate ctx e
+           | Err => None
+           end).
+  Proof.
+    intros macros ctx st s args m Hm Hl Hwf Hs Hsh. unfold gen_call. rewrite Hm.
+    rewrite expansion_is_substitution by assumption.
+    destruct (subst _ _); reflexivity.
+  Qed.
+
+  Theorem expansion_isolated : forall macros ctx st s args,
+      fst (gen_call eval_in gctx generate other_call macros ctx st s args) = st.
   Proof.
     intros. unfold gen_call. destruct (macros s); [|reflexivity].
     destruct (expand_in _ _ _ _); reflexivity.
   Qed.
 
-  Theorem expansion_sees_global_scope_only : forall macros st1 st2 s args m,
+  Theorem expansion_sees_global_scope_only : forall macros ctx st1 st2 s args m,
       macros s = Some m -> global_of st1 = global_of st2 ->
-      snd (gen_call eval_in generate other_call macros st1 s args) =
-      snd (gen_call eval_in generate other_call macros st2 s args).
+      snd (gen_call eval_in gctx generate other_call macros ctx st1 s args) =
+      snd (gen_call eval_in gctx generate other_call macros ctx st2 s args).
   Proof.
     intros. unfold gen_call. rewrite H. unfold duplicate. rewrite H0.
     destruct (expand_in _ _ _ _); reflexivity.
